@@ -62,30 +62,36 @@ structure A where
   rs : Bool := false   -- Close: removed the target from the published pattern snapshot
   rr : Bool := false   -- Close: removed the target's keys from the service map
   mid : Bool := false  -- service update: between the add phase and the delete phase
+  sr : Bool := false   -- Close: executed watcherSet.Remove
+  pa : Bool := false   -- pattern update: mutable table changed by addTarget, not yet published
+  pr : Bool := false   -- pattern Close: mutable table changed by removeTarget, not yet published
 deriving DecidableEq, Repr, Inhabited
 
 /-- what a Close must have done before it may release the watcher mutex / return -/
-def A.cleaned (svc : Bool) (a : A) : Bool := !a.cl || (if svc then a.rr else a.rm && a.rs)
+def A.cleaned (svc : Bool) (a : A) : Bool := !a.cl || ((if svc then a.rr else a.rm && a.rs) && a.sr)
+
+/-- no half-done table change is pending (an early return here would leave the tables inconsistent) -/
+def A.quiet (a : A) : Bool := !a.mid && !a.pa && !a.pr
 
 /-- Effect of one statement on the control flags; `none` = the lock discipline the theorems rely on
     is broken at this statement. `svc` = the programs are those of the service router. -/
 def A.step (svc : Bool) (a : A) : Instr → Option A
   | .lockW => if a.hw || a.ht then none else some { a with hw := true }
   | .unlockW => if a.hw && !a.ht && a.cleaned svc then some { a with hw := false, chk := false } else none
-  | .loadClosed => if a.hw && !a.mid then some { a with chk := true } else none
-  | .casClosed => if a.hw && !a.mid then some { a with cl := true, chk := false, rm := false, rs := false, rr := false } else none
-  | .nameCheck => if !a.mid then some { a with nc := true } else none
+  | .loadClosed => if a.hw && a.quiet then some { a with chk := true } else none
+  | .casClosed => if a.hw && a.quiet then some { a with cl := true, chk := false, rm := false, rs := false, rr := false } else none
+  | .nameCheck => if a.quiet then some { a with nc := true } else none
   | .hook _ => some a
   | .lockT => if a.ht then none else some { a with ht := true }
-  | .unlockT => if a.ht && !a.mid then some { a with ht := false } else none
-  | .pAdd => if a.hw && a.ht && a.chk && a.nc && !svc then some a else none
-  | .pRemove => if a.ht then some { a with rm := true } else none
-  | .pStore => if a.ht then some { a with rs := a.rm } else none
+  | .unlockT => if a.ht && a.quiet then some { a with ht := false } else none
+  | .pAdd => if a.hw && a.ht && a.chk && a.nc && !svc && !a.pa && !a.pr then some { a with pa := true } else none
+  | .pRemove => if a.ht && a.cl && !a.pa && !a.pr then some { a with rm := true, pr := true } else none
+  | .pStore => if a.ht then some { a with rs := a.rm, pa := false, pr := false } else none
   | .sAdd => if a.hw && a.ht && a.chk && a.nc && svc && !a.mid then some { a with mid := true } else none
-  | .sDel => if a.ht then some { a with mid := false } else none
+  | .sDel => if a.ht && a.mid then some { a with mid := false } else none
   | .sRemove => if a.ht && !a.mid then some { a with rr := true } else none
   | .setAdd => some a
-  | .setRemove => some a
+  | .setRemove => if a.cl && !a.sr then some { a with sr := true } else none
   | .pLoad => some a
   | .pIter => some a
   | .sLoad => some a
@@ -228,7 +234,7 @@ def exec (svc storeSame : Bool) (s : State) (t : Tid) (th : Thread) (i : Instr) 
         match s.watchers th.w with
         | some wt => some { setThread s t { th with a := { th.a with hw := false, chk := false } } with
                             watchers := upd s.watchers th.w (some { wt with mu := none }) }
-        | none => some (setThread s t th)
+        | none => none
       else some (setThread s t th)
     | .unlockT =>
       if th.a.ht then some { setThread s t { th with a := { th.a with ht := false } } with tmu := none }
